@@ -102,3 +102,6 @@ def run(ctx, facts):
     from . import C01
     ctx.rule("BETAS", C01.RULES["BETAS"])
     C01.betas_rule(ctx, facts)
+    from . import C13
+    ctx.rule("RESET-prefix", C13.RULES["RESET-prefix"])
+    C13.require_reset_prefix(ctx, facts)
